@@ -277,6 +277,8 @@ class ContractInterp(Interp):
             r = self.resolve_location(loc, env)
             if r[0] == "ghost":
                 old = self.st.ghost.get(r[1])
+                if old is None:
+                    continue        # a ghost the function under verification does not declare: not observed here
                 self.st.ghost[r[1]] = self.havoc_value(old, None, "ghost." + r[1])
             elif r[0] == "field":
                 _, o, attr = r
@@ -307,6 +309,10 @@ class ContractInterp(Interp):
                     keys.add((r[1].ref, sub))
             else:
                 keys.add(("ghost", r[1]))
+                gv = self.st.ghost.get(r[1])
+                if isinstance(gv, (VSeq, VSet, VMap, VList, VDict)):
+                    for sub in ("seq", "set", "dom", "val", "items"):
+                        keys.add((gv.ref, sub))
         return keys
 
     # ------------------------------------------------------------------ obligations
